@@ -44,6 +44,8 @@ class EntryMonitor:
                     stage2 = bool(a[0].second_stage_abort())
                 except Exception:
                     align = False
+                if getattr(mon, 'stage_override', None) is not None:
+                    stage2 = mon.stage_override          # (the scenario built the translation tables itself and knows which stage refuses the access)
             s = EM.pre_state(arm, mon.cfg, align, stage2)
             if kind == 'dabt' and stage2 and mon.report and getattr(mon.b, 'in_step', False):      # (raised by the emulator itself, not injected through the API)
                 # the one thing known about the stage of a fault without modelling the translation: a SECOND-stage abort needs a second stage
